@@ -13,7 +13,8 @@ from concurrent.futures import ThreadPoolExecutor
 ROOT = '/verif/seeded'
 EXTRA = {'C01-1': ['C03'], 'C19-3': ['C17'], 'C02-2': ['C03'],
          'C03-3': ['C05'], 'C10-3': ['C01'], 'C01-w2-2': ['C12'],
-         'C20-w2-1': ['C09'], 'C09-w2-1': ['C08']}
+         'C20-w2-1': ['C09'], 'C09-w2-1': ['C08'], 'C09-w3-2': ['C08'],
+         'C07-w3-1': ['C14'], 'C06-w3-1': ['C17']}
 jobs = int(sys.argv[1]) if len(sys.argv) > 1 else 3
 only = sys.argv[2] if len(sys.argv) > 2 else ''
 
@@ -22,9 +23,12 @@ def one(name):
     d = os.path.join(ROOT, name)
     prop = name.split('-')[0]
     props = [prop] + EXTRA.get(name, [])
+    meta = json.load(open(os.path.join(d, 'meta.json')))
+    if meta.get('superseded'):
+        return name, ('-', '-', 'superseded, see meta.json'), dict(
+            meta.get('checks_run') or {})
     out = subprocess.run(['/verif/tools/seed_eval.sh', d] + props,
                          capture_output=True, text=True).stdout
-    meta = json.load(open(os.path.join(d, 'meta.json')))
     m = re.search(r'demo unpatched rc=(\d+) patched rc=(\d+) \| pytest: (.*)', out)
     meta['confirmed_by'] = ('tools/seed_eval.sh: demo exit {} on an unpatched copy '
                             'of /repo, exit {} on the patched copy; pytest on the '
